@@ -199,6 +199,17 @@ func (c *Core) mount(ctx context.Context, entry *routing.MountEntry) error {
 		return logical.CodedError(403, "mount type of %q is not mountable", entry.Type)
 	}
 
+	// Do not allow a mount to reach into a child namespace. The conflict check
+	// in mountInternal recognises a namespace by its mounts in the router; a
+	// sealed namespace has none there, so ask the namespace store as well.
+	ns, err := namespace.FromContext(ctx)
+	if err != nil {
+		return err
+	}
+	if child, _ := c.namespaceStore.GetNamespaceByLongestPrefix(ctx, entry.Path); child != nil && child.ID != ns.ID {
+		return logical.CodedError(409, "existing mount at %s", child.Path)
+	}
+
 	// Mount internally
 	if err := c.mountInternal(ctx, entry, true); err != nil {
 		return err
